@@ -96,7 +96,7 @@ def concrete_file(vc, M):
     return real, spec
 
 
-@proof("C03/dir_to_binary", functions=[(MOD, "Bf3File.dir_to_binary")], family=fam_files)
+@proof("C03/dir_to_binary", functions=[(MOD, "Bf3File.dir_to_binary"), (MOD, "cmac")], family=fam_files)
 def dir_to_binary(vc):
     M = vc.module(MOD)
     stub_aes(vc, M)
@@ -270,8 +270,15 @@ def bec2_writer(vc):
     vc.cover("written")
 
 
-_reuse("C03/Bec2File.to_binary+write_file", "C02/Bec2File.to_binary+write_file.hand-over")
-_reuse("C03/Bec2File.to_binary+write_file", "C07/Bec2File.to_binary.body-under-the-file's-session-key")
 # the text form: upper-case hex, 40 bytes (80 columns) per line, after the comment lines and one blank line - the loop
 # contract of the hex writer (proved under C01) is an obligation of the layout property too
 _reuse("C01/write_bf3_format.hex-lines", "C03/write_bf3_format.hex-lines")
+
+
+# the cipher is seen through its contract in the proofs above (ENC / DEC / MAC as functions of key, IV and zero-padded data: payload / entry MACs and encrypted payloads);
+# that contract - the registered adapter IS zero-padded AES-128-CBC with the given or all-zero IV, its MAC the last block, and
+# it refuses empty / ragged input with ValueError - is proved under C16 and discharged under this property too
+from pyvc.harness import reuse as _reuse_aes  # noqa: E402
+for _n in (1, 16, 17):
+    _reuse_aes("C16/adapter[len=%d]" % _n, "C03/AES128Proxy=zero-padded-CBC[len=%d]" % _n)
+_reuse_aes("C16/adapter.bad-lengths", "C03/AES128Proxy.bad-lengths=>ValueError")
